@@ -55,6 +55,10 @@ struct Flags {
     skip_html_declaration: bool,
     skip_html_pi: bool,
     skip_html_comment: bool,
+    // A scan for a closing `$` / `$$` / `` `$ `` ran to the end of the input
+    // without finding one: there is none ahead of any later opener either.
+    no_dollar_closer: [bool; MAX_MATH_DOLLARS + 1],
+    no_code_dollar_closer: bool,
 }
 
 pub struct RefMap {
@@ -768,6 +772,10 @@ impl<'a, 'r, 'o, 'd, 'i, 'c> Subject<'a, 'r, 'o, 'd, 'i, 'c> {
             return None;
         }
 
+        if self.flags.no_dollar_closer[opendollarlength] {
+            return None;
+        }
+
         loop {
             while self.peek_char().map_or(false, |&c| c != b'$') {
                 #[cfg(comrak_verif)]
@@ -778,6 +786,7 @@ impl<'a, 'r, 'o, 'd, 'i, 'c> Subject<'a, 'r, 'o, 'd, 'i, 'c> {
             crate::verif::bump(4);
 
             if self.pos >= self.input.len() {
+                self.flags.no_dollar_closer[opendollarlength] = true;
                 return None;
             }
 
@@ -810,6 +819,10 @@ impl<'a, 'r, 'o, 'd, 'i, 'c> Subject<'a, 'r, 'o, 'd, 'i, 'c> {
     fn scan_to_closing_code_dollar(&mut self) -> Option<usize> {
         assert!(self.options.extension.math_code);
 
+        if self.flags.no_code_dollar_closer {
+            return None;
+        }
+
         loop {
             while self.peek_char().map_or(false, |&c| c != b'$') {
                 #[cfg(comrak_verif)]
@@ -820,6 +833,7 @@ impl<'a, 'r, 'o, 'd, 'i, 'c> Subject<'a, 'r, 'o, 'd, 'i, 'c> {
             crate::verif::bump(4);
 
             if self.pos >= self.input.len() {
+                self.flags.no_code_dollar_closer = true;
                 return None;
             }
 
